@@ -43,6 +43,8 @@ class PathExec:
                         v = v[1]
                     elif v[0] == "tuple":
                         v = v[1][e["i"]]
+                    elif v[0] == "struct":
+                        v = v[2][e["i"]] if e["i"] < len(v[2]) else ("unknown", "field")
                     else:
                         v = ("unknown", "field of %s" % v[0])
                 elif e["k"] == "downcast":
@@ -80,6 +82,9 @@ class PathExec:
             return ("unknown", "binop %s" % o)
         if k == "aggregate" and r.get("agg") == "tuple":
             return ("tuple", [self.op(env, o) for o in r["ops"]])
+        if k == "aggregate" and r.get("agg") == "adt" and r.get("adt") not in ("core::option::Option", "core::result::Result") \
+                and self.ctx.facts.adts.get(r.get("adt"), {}).get("kind") == "Struct":
+            return ("struct", r["adt"], [self.op(env, o) for o in r["ops"]])
         if k == "aggregate" and r.get("agg") == "closure":
             return ("closure", r["def"], [self.op(env, o) for o in r["ops"]])
         if k == "aggregate" and r.get("adt") == "core::option::Option":
@@ -157,6 +162,8 @@ class PathExec:
             if v is not None:
                 return v
         if name.endswith("From::from") or name.endswith("Into::into") or (c.name or "").endswith(("From::from", "Into::into")):
+            if args[0][0] == "cmp":
+                return ("cmpcast", args[0][1], args[0][2], args[0][3])      # usize::from(bool)
             return args[0]
         return ("unknown", "call %s" % (c.tname or "<indirect>"))
 
@@ -374,8 +381,18 @@ def rule_s_grow(ctx):
         return R
     n = 0
     for b, loc, c in replacer_sites(ctx):
+        n += _grow_body_check(ctx, R, b, loc, Rc)
+    if n < 1:
+        R.anchor("alloc-sites", "expected an allocation site in the replacer, found %d" % n)
+    return R
+
+
+def _grow_body_check(ctx, R, b, loc, Rc):
+    """the obligations of S-grow for one body that replaces MAIN at loc; returns the number of allocation sites checked"""
+    n = 0
+    if True:
         if self_s_prefix(ctx, b) is None:
-            continue
+            return 0
         allocs = [(x, x.args[0]) for x in ctx.calls(b) if x.tname in (HBT + "with_capacity", HBT + "try_with_capacity") and not b.is_cleanup(x.loc.bb)]
         # allocation delegated to a small helper: the helper passes one of its own parameters straight to hashbrown
         for x in ctx.calls(b):
@@ -401,7 +418,7 @@ def rule_s_grow(ctx):
                 R.viol("%s:alloc-helper" % b.path, x.where(), "the allocation helper %s does not pass a plain parameter to hashbrown (unproven)" % lc.path)
         if not allocs:
             R.viol("%s:no-alloc" % b.path, b.where(loc), "MAIN is replaced by a table not allocated in the same body (unproven)")
-            continue
+            return 0
         usize_params = [l for l in range(2, b.arg_count + 1) if ctx.facts.types[b.locals[l]["ty"]]["s"] == "usize"]
         for a, size_op in allocs:
             n += 1
@@ -436,9 +453,7 @@ def rule_s_grow(ctx):
             if bad:
                 R.viol(key, a.where(), "growth in %s: %s. With a tighter table hashbrown's with_capacity can be exact (e.g. 28 of 32 buckets), so moving the "
                        "remaining elements would hit a full table" % (b.path, bad))
-    if n < 1:
-        R.anchor("alloc-sites", "expected an allocation site in the replacer, found %d" % n)
-    return R
+    return n
 
 
 def rule_s_shrink(ctx):
@@ -558,9 +573,11 @@ def rule_s_reserve(ctx):
             continue
         usize_params = [l for l in range(2, b.arg_count + 1) if ctx.facts.types[b.locals[l]["ty"]]["s"] == "usize"]
         if b.path in reps:
-            # the growth happens in this very body (helper merged into it): S-grow proves arg >= L + <each usize parameter of this body>
-            g += 1
-            R.inst(fn=b.path, callee="(grows in place)", verdict="ok: obligation arg >= len + additional is S-grow's for this body")
+            # the growth happens in this very body (helper merged into it): arg >= L + <each usize parameter of this body> is proved here
+            Rc_ = R_const(ctx)
+            for rb_, rloc_, _ in replacer_sites(ctx):
+                if rb_.path == b.path and Rc_:
+                    g += 1 if _grow_body_check(ctx, R, b, rloc_, Rc_) else 0
         for c in ctx.calls(b):
             lc = c.local_callee()
             if lc is None or not (lc.path in reps or any(p in reps for p in ctx.reachable_bodies(lc.path))) or lc.path in movers(ctx):
